@@ -179,10 +179,17 @@ def one_dim_replay(rep, fnd, tab, pid, kinds):
             try:
                 rA, rB = dtlib.real_op(kind, r, L, hp, axis)
             except Exception as e:   # noqa
-                rep.violation("%s raised %r at %s" % (name, e, cfg), {"api": name, "check": "one_dim", "cfg": cfg})
+                if kind == "colfilter0":
+                    rep.drift.append("%s(mode='zero') raised %r at %s" % (name, e, cfg))
+                else:
+                    rep.violation("%s raised %r at %s" % (name, e, cfg), {"api": name, "check": "one_dim", "cfg": cfg})
                 continue
             if dwtlib.eq_int(rA, A) and dwtlib.eq_int(rB, B):
                 n_ok += 1
+            elif kind == "colfilter0":
+                # the zero-extension mode is outside the listed properties (the reference package has no such mode):
+                # a deviation from the declarative meaning is reported as a diagnostic
+                rep.drift.append("%s(mode='zero') differs from the zero-extended convolution at %s" % (name, cfg))
             else:
                 d = dwtlib.diff_entries(rA, A) or dwtlib.diff_entries(rB, B)
                 rep.violation("%s operator differs from the reference %s at %s: [index(out,tap,in), observed, expected] %s"
